@@ -25,7 +25,9 @@ def init_pool(env):
     Q = lw.Circuit(4); Q.add(B, 1); Q.ps(0, env.PH[1])
     S = lw.State([1, 0, 1, 0])
     L = lw.Circuit(4); L.bs(0, reflectivity=env.R[1], loss=env.L2); L.ps(2, env.PH[0], loss=env.L[1])   # lossy
-    W = lw.Circuit(4); W.mode_swaps({0: 2, 2: 1, 1: 0}); W.bs(1, 3, reflectivity=env.R2)                # swaps, lossless
+    # swaps, lossless: two separate runs of mergeable swaps with a blocker in between
+    W = lw.Circuit(4); W.mode_swaps({0: 2, 2: 1, 1: 0}); W.mode_swaps({0: 1, 1: 0}); W.bs(1, 3, reflectivity=env.R2)
+    W.mode_swaps({2: 3, 3: 2}); W.mode_swaps({0: 3, 3: 0, 1: 2, 2: 1})
     return {"P": P, "A": A, "B": B, "Q": Q, "C": None, "S": S, "L": L, "W": W}
 
 
@@ -44,7 +46,7 @@ def alphabet(env):
             ("plus", "P", "W"), ("plus", "L", "P"), ("add", "P", "W", 0, False), ("add", "L", "A", 1, True)]
     ops += [("edit", "A", "bs"), ("edit", "A", "loss"), ("edit", "B", "ps"), ("edit", "B", "herald"),
             ("edit", "P", "herald"), ("edit", "Q", "swap"), ("edit", "P", "bsloss")]
-    ops += [("copy", "P"), ("copy", "Q"), ("freeze", "Q"), ("copy", "B")]
+    ops += [("copy", "P"), ("copy", "Q"), ("freeze", "Q"), ("copy", "B"), ("copy", "W")]
     ops += [("edit", "C", "unpack"), ("edit", "C", "compress"), ("edit", "C", "remove"), ("edit", "C", "bs"),
             ("add", "C", "A", 1, False), ("add", "P", "C", 0, False)]
     for tgt in ("P", "Q"):
@@ -57,7 +59,8 @@ def alphabet(env):
             ("bad", "P", "add_not_circuit"), ("bad", "P", "add_negative"), ("bad", "Q", "bs_conv"),
             ("bad", "P", "herald_type"), ("bad", "Q", "add_oversize_span"), ("bad", "P", "bs_loss_string"),
             ("bad", "Q", "ps_loss_string"), ("bad", "P", "loss_string"), ("bad", "P", "bs_refl_string"), ("bad", "Q", "add_oversize_heralded_span"),
-            ("bad", "P", "add_oversize_heralded_span")]
+            ("bad", "P", "add_oversize_heralded_span"), ("bad", "P", "bs_loss_param"), ("bad", "Q", "ps_loss_param"),
+            ("bad", "P", "loss_param")]
     return ops
 
 
@@ -160,6 +163,9 @@ def apply_op(pool, op, env):
                 # fits by a plain mode count, oversize only because an ancilla lies inside the span
                 hs = lw.Unitary(env.U[5].copy()); hs.herald(1, 2, 2)
                 c.add(hs, 1)
+            elif what == "bs_loss_param": c.bs(0, 1, loss=lw.Parameter(1.5))       # invalid value held by a Parameter
+            elif what == "ps_loss_param": c.ps(0, 0.3, loss=lw.Parameter(-0.2))
+            elif what == "loss_param": c.loss(1, lw.Parameter("x"))
             elif what == "bs_loss_string": c.bs(0, 1, loss="0.25")
             elif what == "ps_loss_string": c.ps(0, 0.3, loss="0.25")
             elif what == "loss_string": c.loss(0, "0.1")
